@@ -41,6 +41,7 @@ fn handle(case: &Value) -> Value {
         "parse_arg" => front::parse_arg(case),
         "scan" => front::scan(case),
         "render" => front::render(case),
+        "match_check" => front::match_check(case),
         _ => json!({"error": format!("unknown op {op}")}),
     }
 }
